@@ -50,6 +50,25 @@ theorem C27_receive_order : Arc.Generated.C27.receiveSkeleton =
 
 theorem C27_initial_state_tied : Arc.Generated.C27.initialState = St.pending.name := by decide
 
+/-- **C27_recover_every_pass.** In the current `agent.go`, `Agent.Run` itself calls
+`a.ledger.RecoverInFlight` — unconditionally, as a top-level statement, before any other call — so
+EVERY pass (not only the first pass of an Agent/process) starts by reverting `in_flight` rows, exactly
+as the model's `runAgent` starts with `recover`. This is what makes a row stranded in `in_flight` by a
+pass whose context died (contact window / run timeout closing mid-transfer on a long-lived agent)
+eligible again on the next pass; the model therefore does not distinguish a fresh Agent from a
+reused one. A once-per-process recovery breaks this `decide`. -/
+theorem C27_recover_every_pass :
+    Arc.Generated.C27.runFirstCall = "a.ledger.RecoverInFlight" ∧
+    (Arc.Generated.C27.runLedgerCalls.filter (fun c => c.2 = "RecoverInFlight")).length = 1 := by decide
+
+/-- **C27_stale_from_candidates.** In `Reconciler.confirmPresent` every path appended to `stale` (the
+receipts `ForgetBatch` then deletes) is drawn from `candidates` — the entries that HAVE a
+non-compacted receipt and whose existence was checked — never from a differently indexed collection
+such as `entries`. The model's `reconcile` forgets exactly the checked entry's own receipt
+(`forgetStale` on that key). -/
+theorem C27_stale_from_candidates :
+    Arc.Generated.C27.staleRoots ≠ [] ∧ ∀ r ∈ Arc.Generated.C27.staleRoots, r = "candidates" := by decide
+
 /-! ## 2. ledger transitions under every run -/
 
 /-- a log entry is an edge of the table of the method that wrote it (or the INSERT of a pending row). -/
